@@ -176,10 +176,79 @@ func runOBJBuild(r *runner, work *choice.Source) (fs []Finding) {
 		simsched.Yield("color.vertex", int(math.Float64bits(c.X)%97))
 		return [3]float64{math.Abs(c.X), math.Abs(c.Y), math.Abs(c.Z)}
 	}
+	// a hand-made UV map: triangles 2c and 2c+1 are the lower-left and upper-right
+	// halves of cell c of a k x k grid.  A texture sample that falls on a diagonal, on
+	// a cell border or in an empty half is attributed by the library to "the nearest
+	// triangle", which for ties depends on the Go-map order of the UV map, so only
+	// pixels whose samples all lie strictly inside one triangle are compared.
+	cells := (len(tris) + 1) / 2
+	k := 1
+	for k*k < cells {
+		k++
+	}
+	uv := model3d.MeshUVMap{}
+	d := 1 / float64(k)
+	for i, t := range tris {
+		c := i / 2
+		x0, y0 := float64(c%k)*d, float64(c/k)*d
+		if i%2 == 0 {
+			uv[t] = [3]model2d.Coord{model2d.XY(x0, y0), model2d.XY(x0+d, y0), model2d.XY(x0, y0+d)}
+		} else {
+			uv[t] = [3]model2d.Coord{model2d.XY(x0+d, y0), model2d.XY(x0+d, y0+d), model2d.XY(x0, y0+d)}
+		}
+	}
+	texColor := toolbox3d.CoordColorFunc(func(c model3d.Coord3D) render3d.Color {
+		simsched.Yield("color.texture", int(math.Float64bits(c.X)%97))
+		return render3d.NewColorRGB(math.Abs(c.X), math.Abs(c.Y), math.Abs(c.Z))
+	}).Cached()
+	texSize := 2 + work.Intn(5)
+	aa := 1 + texSize%2
+	inside := func(x, y float64) bool {
+		cx, cy := int(x/d), int(y/d)
+		if cx >= k || cy >= k {
+			return false
+		}
+		u, v := x/d-float64(cx), y/d-float64(cy)
+		const m = 1e-6
+		if u < m || v < m || u > 1-m || v > 1-m {
+			return false
+		}
+		c := cy*k + cx
+		switch {
+		case u+v < 1-m:
+			return 2*c < len(tris)
+		case u+v > 1+m:
+			return 2*c+1 < len(tris)
+		}
+		return false
+	}
+	var texPixels []int // indices into Image.Data that have an unambiguous value
+	for y := 0; y < texSize; y++ {
+		for x := 0; x < texSize; x++ {
+			ok := true
+			for iy := 0; iy < aa; iy++ {
+				for ix := 0; ix < aa; ix++ {
+					dx := 1 / float64(texSize*aa)
+					fx := float64(x)/float64(texSize) + dx/2 + dx*float64(ix)
+					fy := float64(y)/float64(texSize) + dx/2 + dx*float64(iy)
+					ok = ok && inside(fx, fy)
+				}
+			}
+			if ok {
+				texPixels = append(texPixels, (texSize-(y+1))*texSize+x)
+			}
+		}
+	}
 	digest := func() string {
 		o, m := model3d.BuildMaterialOBJ(tris, cf)
 		vo := model3d.BuildVertexColorOBJ(tris, vf)
-		s := fmt.Sprint(o.Vertices, len(o.FaceGroups), vo.VertexColors)
+		tex := render3d.NewImage(texSize, texSize)
+		texColor.ToTexture(tex, uv, aa, false)
+		uo, _ := model3d.BuildUVMapMaterialOBJ(tris, uv)
+		s := fmt.Sprint(o.Vertices, len(o.FaceGroups), vo.VertexColors, uo.UVs, len(uo.FaceGroups))
+		for _, p := range texPixels {
+			s += fmt.Sprint(tex.Data[p])
+		}
 		for _, g := range o.FaceGroups {
 			s += fmt.Sprint(g.Material, g.Faces)
 		}
@@ -188,13 +257,17 @@ func runOBJBuild(r *runner, work *choice.Source) (fs []Finding) {
 		}
 		return s
 	}
+	if len(texPixels) > 0 {
+		r.st.probe("objbuild.texture_pixels_compared")
+	}
 	var want, got string
 	if f := r.ref(func() { want = digest() }); f != nil {
 		return []Finding{*f}
 	}
 	rseed := int64(work.U64() >> 1)
+	r.st.MapDep = "MeshUVMap is a Go map: which triangle ToTexture picks for a sample on a border, and hence which colours it asks for, follows its iteration order"
 	if len(tris) > 3 {
-		r.st.MapDep = "QuantizedTriangleColor clusters Mesh.TriangleSlice() in the iteration order of the face set (a Go map)"
+		r.st.MapDep += "; QuantizedTriangleColor clusters Mesh.TriangleSlice() in the iteration order of the face set (a Go map)"
 	}
 	if f := r.simN(workers, sticky, nil, func() {
 		got = digest()
@@ -232,9 +305,11 @@ func runRender(r *runner, work *choice.Source) (fs []Finding) {
 	sticky := work.Intn(4)
 	kind := work.Intn(3)
 	samples := 1 + work.Intn(4)
-	shared := work.Chance(1, 2)
+	sharedRenderer := work.Chance(1, 2)
+	// focus points and area lights are shared by every render worker too
+	focus := work.Chance(1, 2)
 	r.st.Workers = workers
-	r.st.Desc = fmt.Sprintf("render kind=%d %dx%d samples=%d workers=%d sharedRenderer=%v", kind, w, h, samples, workers, shared)
+	r.st.Desc = fmt.Sprintf("render kind=%d %dx%d samples=%d workers=%d sharedRenderer=%v focus=%v", kind, w, h, samples, workers, sharedRenderer, focus)
 	cam := render3d.NewCameraAt(model3d.XYZ(0.3, -4, 0.5), model3d.XYZ(0, 0, 0), 0.9)
 	lights := []*render3d.PointLight{{Origin: model3d.XYZ(2, -3, 4), Color: render3d.NewColor(1)}}
 	obj := scene()
@@ -255,13 +330,24 @@ func runRender(r *runner, work *choice.Source) (fs []Finding) {
 	default:
 		progress := 0
 		mk := func() *render3d.RecursiveRayTracer {
-			return &render3d.RecursiveRayTracer{Camera: cam, Lights: lights, MaxDepth: kind - 1, NumSamples: samples,
+			rt := &render3d.RecursiveRayTracer{Camera: cam, Lights: lights, MaxDepth: kind - 1, NumSamples: samples,
 				LogFunc: func(frac, rate float64) { progress++ }}
+			if focus {
+				rt.MaxDepth = kind
+				rt.FocusPoints = []render3d.FocusPoint{
+					&render3d.SphereFocusPoint{Center: model3d.XYZ(2, -3, 4), Radius: 0.7},
+					&render3d.PhongFocusPoint{Target: model3d.XYZ(1.2, 0.4, 0.3), Alpha: 4},
+				}
+				rt.FocusPointProbs = []float64{0.3, 0.3}
+			}
+			return rt
 		}
 		rt := mk()
+		shared := mk()
+		shared.LogFunc = nil
 		imgs := []*render3d.Image{render3d.NewImage(w, h), render3d.NewImage(w, h)}
 		if f := r.simN(workers, sticky, knobs, func() {
-			if !shared {
+			if !sharedRenderer {
 				rt.Render(imgs[0], obj)
 				return
 			}
@@ -270,9 +356,9 @@ func runRender(r *runner, work *choice.Source) (fs []Finding) {
 			for i := 0; i < 2; i++ {
 				go func(i int) {
 					simsched.Yield("render.caller", i)
-					rt2 := *rt
-					rt2.LogFunc = nil
-					rt2.Render(imgs[i], obj)
+					// the very same renderer value (no LogFunc: its callback state
+					// would be the callers' own shared state, not the library's)
+					shared.Render(imgs[i], obj)
 					done <- struct{}{}
 				}(i)
 			}
